@@ -169,6 +169,17 @@ def generate(tier, rng):
         key = keys[(i // per) % 2]
         cfg = gens.cfgs(key=key)[(i // per) % 2]      # without / with a self-IP list containing the contacted addresses
         yield script_for(rng, cfg, key, pl[i:i + per], "payloads %d..%d" % (i, i + per - 1))
+    # long identification strings with bytes outside ASCII around the lengths where a log line might be cut, under
+    # every log level (the reply may not depend on what the loggers do with the text)
+    longs = []
+    for n in (15, 16, 17, 31, 32, 33, 62, 63, 64, 65, 127, 128, 129, 255, 256):
+        for tail in (b"\xff", b"\xc3\xa9", b"\xe2\x82\xac", b"\xc3\xa9\xc3\xa9\xc3\xa9", b"\xf0\x9f\x98\x80"):
+            for k in range(0, 4):
+                longs.append(b"SSH-2.0-" + b"a" * (n - k) + tail + b"zz comment\r\n")
+    for logger, level in (("none", 1), ("console", 3), ("logfmt", 4), ("none", 0)):
+        for i in range(0, len(longs), 100):
+            yield script_for(rng, Cfg(key=keys[0], logger=logger, level=level), keys[0], longs[i:i + 100],
+                             "long-non-ascii level=%d %d.." % (level, i))
     # later segments of a flow already identified as SSH / Gh0st: every segment is judged on its own bytes (the SSH
     # parser keeps no state), whatever the flow carried before
     later = [b"ssh-2.0-OpenSSH_8.9p1\r\n", b"SSH_2.0-probe\r\n", b"HELO1.99-mail.example.org\r\n", b"H-2.0-probe\r\n", b"-2.0-x\r\n",
